@@ -216,8 +216,9 @@ def main():
     print("done: %d patches in %ds: %s" % (len(results), time.time() - t0, ", ".join("%d %s" % (v, k) for k, v in sorted(cnt.items()))))
     if seed == 1 and not no_md:  # the table is the seed-1 state; other seeds are diagnostic runs
         last["results"] = {k: v for k, v in last["results"].items() if k in allnames}
-        last["jobs"], last["seed"] = jobs, seed
+        last["seed"] = seed
         if not picked:
+            last["jobs"] = jobs
             last["full_run_at"] = time.strftime("%Y-%m-%d %H:%M")
             last["full_run_wall_s"] = int(time.time() - t0)
         save_json(LAST, last)
